@@ -491,3 +491,8 @@ def finishing_step_builds_the_accessors_and_connects_once(combo, block: bytes):
             len(spa.accessors) == len(dict(spa.new_config_class.accessors, **spa.new_log_class.accessors)))
     ensures("no-error-flagged", not spa.is_in_error)
     cover("reached-end", True)
+
+
+# the simulator side of the handshake with its unreliability switched on (shared with C01)
+harness(prop="C20", target="geckolib.utils.simulator:GeckoSimulator._on_status_block", uses=["arbitrary_loss"], loops=["sim_lossy_loop"],
+        name="lossy_simulator_never_sends_a_shifted_segment")(c01_transfer.lossy_simulator_sends_only_elements_of_the_chain)
